@@ -7,6 +7,7 @@ package netpoll
 
 import (
 	"fmt"
+	"sync/atomic"
 	"syscall"
 	"time"
 
@@ -237,9 +238,12 @@ func runC10(e *Env) {
 // checkSlots: a poller slot has a single owner at a time, and no slot on the free chain is
 // referenced by a live connection.
 func checkSlots(e *Env, all []*c10Conn) {
+	// one look at the world without a scheduling point in between (IsActive is a yielding atomic in
+	// the rewritten tree: other tasks would run between the census of the live connections and the
+	// walk over the free chain)
 	owner := map[*FDOperator]int{}
 	for _, x := range all {
-		if x.closed || !x.c.IsActive() {
+		if x.closed || x.c == nil || atomic.LoadInt32(&x.c.keychain[closing]) != 0 {
 			continue
 		}
 		if prev, ok := owner[x.c.operator]; ok {
@@ -294,6 +298,7 @@ type c11FD struct {
 func runC11(e *Env) {
 	faults := e.Chance(1, 2)
 	e.Setup(1, faults)
+	vsys.K.ErrQueueEAGAIN = e.Bool() // the error queue answers like TCP's in half of the runs
 	poll, err := openDefaultPoll()
 	if err != nil {
 		panic("harness: openDefaultPoll: " + err.Error())
@@ -552,7 +557,7 @@ func runC11(e *Env) {
 		vsys.Disown(w.fd)
 		vsys.HClose(w.fd)
 	}
-	e.Summary = fmt.Sprintf("fds=%d wfds=%d faults=%v", nfds, len(wfds), faults)
+	e.Summary = fmt.Sprintf("fds=%d wfds=%d faults=%v errqueueEAGAIN=%v", nfds, len(wfds), faults, vsys.K.ErrQueueEAGAIN)
 	for _, x := range active {
 		e.Summary += fmt.Sprintf(" d%d{wrote=%d acked=%d hups=%d end=%s out=%v det=%v}", x.id, x.wrote, x.acked, x.hups, x.peerEnd, x.wantOut, x.userDet)
 	}
